@@ -332,7 +332,8 @@ def run_history(flavour, history, dispatch_dir=None):
                 vs.append(V("invalid-operation-not-rejected-with-ValueError", event=ev, exc=repr(exc)))
             elif want_exc is not None and ev[0] == "set" and real_state(flavour) != before:
                 vs.append(V("rejected-operation-changed-registry", event=ev))
-            if want_exc is None and nw != want_warn:
+            # the statement says a conflicting registration warns: at least one warning per conflicting name, none without conflict
+            if want_exc is None and (nw < want_warn or (want_warn == 0 and nw)):
                 vs.append(V("overwrite-warning-count", event=ev, got=nw, want=want_warn, messages=msgs))
             if last:
                 outcome = [type(exc).__name__ if exc else None, nw]
